@@ -76,10 +76,15 @@ fn name_der(rdns: &[Vec<(&str, u8, &str)>]) -> Vec<u8> {
 
 /// assemble and sign a request with the harness's own writer
 fn handcraft(key: &KeyInfo, sigalg: &str, subject: &[u8], attrs: &[Vec<u8>]) -> Vec<u8> {
+	handcraft_spki(key, sigalg, subject, attrs, &key.spki)
+}
+
+/// the same with a SubjectPublicKeyInfo of the caller's making (same key bits, other AlgorithmIdentifier encodings)
+fn handcraft_spki(key: &KeyInfo, sigalg: &str, subject: &[u8], attrs: &[Vec<u8>], spki: &[u8]) -> Vec<u8> {
 	let pkey = PKey::private_key_from_der(&key.pkcs8).unwrap();
 	let mut a: Vec<Vec<u8>> = attrs.to_vec();
 	a.sort();
-	let info = enc_seq(&[enc_uint(&[0]), subject.to_vec(), key.spki.clone(), enc_tlv(0xa0, &a.concat())]);
+	let info = enc_seq(&[enc_uint(&[0]), subject.to_vec(), spki.to_vec(), enc_tlv(0xa0, &a.concat())]);
 	let sig = sign_raw(&pkey, sigalg, &info);
 	enc_seq(&[info, sig_alg_der(sigalg), bit_string(&sig)])
 }
@@ -381,6 +386,36 @@ pub fn run(out_path: &str, tier: &str) {
 		for (name, s, attrs) in shapes {
 			let der = handcraft(&key, "ecdsa-sha256", &s, &attrs);
 			bases.push((json!({"origin": "handcrafted", "keyType": "p256", "sigAlg": "ecdsa-sha256", "shape": name, "expectSupported": name == "plain-handcrafted" || name == "unknown-attribute" || name == "critical-san"}), der));
+		}
+	}
+
+	// (d) validly signed requests whose SubjectPublicKeyInfo names the key type with a non-canonical AlgorithmIdentifier
+	//     (same OID, other parameters), and names that use object identifiers with an arc beyond 64 bits
+	{
+		let subj = name_der(&[vec![("2.5.4.3", 0x0c, "odd spki")]]);
+		let ed = info_from_pkey("k-odd-ed", "ed25519", &gen_pkey("ed25519", &mut rng), "openssl");
+		let rsa = info_from_pkey("k-odd-rsa", "rsa-sha256", &gen_pkey("rsa2048", &mut rng), "openssl");
+		let p256 = info_from_pkey("k-odd-p256", "ecdsa-p256-sha256", &gen_pkey("p256", &mut rng), "openssl");
+		let bits = |k: &KeyInfo| bit_string(&k.raw_pub);
+		let odd: Vec<(&str, &KeyInfo, &str, Vec<u8>)> = vec![
+			("spki-ed25519-explicit-null", &ed, "ed25519", enc_seq(&[enc_seq(&[enc_oid("1.3.101.112"), vec![0x05, 0x00]]), bits(&ed)])),
+			("spki-ed25519-empty-sequence-params", &ed, "ed25519", enc_seq(&[enc_seq(&[enc_oid("1.3.101.112"), vec![0x30, 0x00]]), bits(&ed)])),
+			("spki-rsa-null-omitted", &rsa, "rsa-sha256", enc_seq(&[enc_seq(&[enc_oid("1.2.840.113549.1.1.1")]), bits(&rsa)])),
+			("spki-rsa-integer-params", &rsa, "rsa-sha256", enc_seq(&[enc_seq(&[enc_oid("1.2.840.113549.1.1.1"), vec![0x02, 0x01, 0x00]]), bits(&rsa)])),
+			("spki-ec-params-null", &p256, "ecdsa-sha256", enc_seq(&[enc_seq(&[enc_oid("1.2.840.10045.2.1"), vec![0x05, 0x00]]), bits(&p256)])),
+		];
+		for (name, key, sigalg, spki) in odd {
+			let der = handcraft_spki(key, sigalg, &subj, &[], &spki);
+			bases.push((json!({"origin": "handcrafted", "keyType": key.ktype, "sigAlg": sigalg, "shape": name, "expectSupported": false}), der));
+		}
+		// 2.25.(2^64 + 5): ten base-128 digits; an implementation with 64 bit arcs must refuse it, not wrap it to 2.25.5
+		let big_oid = enc_tlv(0x06, &[0x69, 0x82, 0x80, 0x80, 0x80, 0x80, 0x80, 0x80, 0x80, 0x80, 0x05]);
+		let subj_big = enc_seq(&[enc_set(&[enc_seq(&[big_oid.clone(), enc_tlv(0x0c, b"v")])])]);
+		let other_name = enc_tlv(0xa0, &[big_oid.clone(), enc_tlv(0xa0, &enc_tlv(0x0c, b"v"))].concat());
+		let san_big = ext("2.5.29.17", false, &enc_seq(&[other_name]));
+		for (name, s, attrs) in [("subject-type-arc-over-64-bits", subj_big, vec![]), ("othername-type-id-arc-over-64-bits", subj.clone(), vec![ext_req_attr(&[enc_seq(&[san_big])])])] {
+			let der = handcraft(&p256, "ecdsa-sha256", &s, &attrs);
+			bases.push((json!({"origin": "handcrafted", "keyType": "p256", "sigAlg": "ecdsa-sha256", "shape": name, "expectSupported": false}), der));
 		}
 	}
 
